@@ -211,13 +211,18 @@ class MultiTypeMap(dict):
             # candidate dominates, then the same among the rest, and so on.
             remaining = list(candidates)
             while remaining:
+                # Two candidates that each claim to dominate the other (type
+                # orderings that are not mirror images) are left unordered.
                 rank = [
                     c
                     for c in remaining
-                    if not any(o.dominates(c) for o in remaining if o is not c)
+                    if not any(
+                        o.dominates(c) and not c.dominates(o)
+                        for o in remaining
+                        if o is not c
+                    )
                 ]
                 if not rank:  # pragma: no cover
-                    # Inconsistent user-defined orderings
                     rank = remaining
                 yield rank
                 remaining = [c for c in remaining if c not in rank]
